@@ -109,8 +109,10 @@ fn do_mut(db: &mut VDb, op: &Op, n: usize) {
         "set" => set_input(db, op.i as usize, op.f, op.v, op.d),
         "synth" => db.synthetic_write(dur(op.d)),
         "cell" => {
-            db.cx.cells[op.k as usize - 1].store(op.v, Ordering::SeqCst);
+            // the untracked state changes only if the accompanying synthetic write went through (a panic in
+            // the event callback while the writer waits leaves both the revision and the cell unchanged)
             db.synthetic_write(dur(op.d));
+            db.cx.cells[op.k as usize - 1].store(op.v, Ordering::SeqCst);
         }
         "lru" => set_lru(db, op.k as usize),
         "evict" => db.trigger_lru_eviction(),
